@@ -4,6 +4,7 @@ import (
 	"fmt"
 	"go/token"
 	"go/types"
+	"os"
 	"sort"
 	"strings"
 
@@ -237,6 +238,9 @@ func (fr *Frame) findLoops() {
 	})
 	for i, h := range heads {
 		fr.loops[h].ord = i + 1
+		if os.Getenv("VERIF_LOOPS") != "" && fr.top {
+			fmt.Fprintf(os.Stderr, "loop %d of %s: %s\n", i+1, fr.fn.Name(), fr.e.posOf(token.Pos(blockPos(h))))
+		}
 		if fr.top && fr.e.spec != nil {
 			fr.loops[h].spec = fr.e.spec.Loops[i+1]
 		} else if !fr.top {
@@ -399,6 +403,18 @@ func (fr *Frame) execBlock(b *ssa.BasicBlock, st0 *State) {
 			e.keySort["X:lastsendalloc"] = sRef
 			e.assume(mkImp(fr.pc, app("<=", e.heapGet(fr.st, "X:lastsendalloc", sRef), fr.st.alloc)))
 		}
+		if e.spec != nil && fr.depth == 0 {
+			for name, cls := range e.spec.CallPre {
+				for _, c := range cls {
+					if strings.Contains(c.Src, "sincelastcall(") {
+						key := "X:lastcallalloc:" + name
+						e.keySort[key] = sRef
+						e.assume(mkImp(fr.pc, app("<=", e.heapGet(fr.st, key, sRef), fr.st.alloc)))
+						break
+					}
+				}
+			}
+		}
 		// loopiter: the ghost count of completed iterations (physical: below 2^40)
 		li.iterHead = e.fresh("loopiter", sBV64)
 		e.assume(mkAnd(app("bvsle", bvLitI(64, 0), li.iterHead), app("bvslt", li.iterHead, bvLitI(64, 1<<40))))
@@ -478,6 +494,15 @@ func (fr *Frame) loopWrites(li *loopInfo) (keys map[string]bool, all bool) {
 			}
 			if fr.e.spec != nil && depth == 0 && len(fr.e.spec.OnSend) > 0 {
 				keys["X:lastsendalloc"] = true
+			}
+			if fr.e.spec != nil && depth == 0 {
+				for name, cls := range fr.e.spec.CallPre {
+					for _, c := range cls {
+						if strings.Contains(c.Src, "sincelastcall(") {
+							keys["X:lastcallalloc:"+name] = true
+						}
+					}
+				}
 			}
 			if fr.e.spec != nil && depth == 0 {
 				for g := range fr.e.spec.OnSendAdd {
